@@ -68,7 +68,7 @@ class LockFlow:
             short = callee.split("::")[-1]
             cls = strip_tmpl(n.get("cls") or "")
             if cls in LOCKER_TYPES and isinstance(obj, dict) and obj.get("k") == "ref":
-                holder = obj.get("decl")
+                holder = self._holder(obj)
                 if short == "unlock":
                     rel = [x for x in st if x[1] == holder]
                     for x in rel:
@@ -90,6 +90,19 @@ class LockFlow:
                     self._op(key, "release", m, "direct", n)
                 return frozenset(st)
         return state
+
+    def _holder(self, obj):
+        """the locker object a reference designates: a `QMutexLocker &` parameter of a helper spliced into this function stands for the caller's locker"""
+        from .util import local_var
+        for _ in range(4):
+            dn, var = local_var(self.fn, obj.get("decl"))
+            if var is not None and "&" in (var.get("type") or "") and isinstance(var.get("init"), dict):
+                i = skip_copies(var["init"])
+                if isinstance(i, dict) and i.get("k") == "ref" and i.get("decl") != obj.get("decl"):
+                    obj = i
+                    continue
+            break
+        return obj.get("decl")
 
     def _op(self, key, kind, m, holder, node):
         t = (key, kind, m, holder, node["id"])
